@@ -53,6 +53,10 @@ type Config struct {
 	ReverseMaps      bool                        `json:"reverse_maps_in_thorough"`
 	SkipEntriesQuick []string                    `json:"thorough_only_entries"`
 	BudgetS          map[string]int              `json:"budget_s"`
+	// entries whose counterexamples involve a kill -9 in mid-call: they cannot be
+	// replayed natively and are confirmed by re-executing the path in the engine
+	// with every input pinned to the model (concrete run of the interpreter)
+	EngineConfirmed []string `json:"engine_confirmed_entries"`
 }
 
 type Finding struct {
